@@ -161,6 +161,48 @@ Proof.
   rewrite H in H1. congruence.
 Qed.
 
+(* the least-significant-digit-first computation used by the model gives the same digits *)
+Lemma fixed_dec_snoc : forall w m, (m < 10 ^ N.of_nat (S w))%N ->
+  fixed_dec (S w) m = fixed_dec w (m / 10) ++ [digit_char (m mod 10)].
+Proof.
+  induction w as [|w IH]; intros m Hm.
+  - cbn [fixed_dec app]. change (10 ^ N.of_nat 0)%N with 1%N. change (10 ^ N.of_nat 1)%N with 10%N in Hm.
+    rewrite N.div_1_r. rewrite (N.mod_small m 10) by assumption. reflexivity.
+  - assert (Hp := pow10_pos w). set (p := (10 ^ N.of_nat w)%N) in *.
+    assert (Hps : (10 ^ N.of_nat (S w) = 10 * p)%N) by apply pow10_succ.
+    assert (Hpss : (10 ^ N.of_nat (S (S w)) = 10 * (10 * p))%N) by (rewrite pow10_succ, Hps; reflexivity).
+    change (fixed_dec (S (S w)) m) with
+      (digit_char (m / 10 ^ N.of_nat (S w)) :: fixed_dec (S w) (m mod 10 ^ N.of_nat (S w))).
+    rewrite IH by (apply N.mod_lt; rewrite Hps; lia).
+    change (fixed_dec (S w) (m / 10)) with
+      (digit_char (m / 10 / 10 ^ N.of_nat w) :: fixed_dec w ((m / 10) mod 10 ^ N.of_nat w)).
+    fold p. rewrite Hps.
+    (* m mod (10 * p) = m mod 10 + 10 * ((m / 10) mod p) *)
+    pose proof (N.mod_mul_r m 10 p ltac:(lia) ltac:(lia)) as Hmm.
+    assert (Hr : (m mod 10 < 10)%N) by (apply N.mod_lt; lia).
+    assert (H1 : ((m mod (10 * p)) / 10 = (m / 10) mod p)%N).
+    { rewrite Hmm. rewrite (N.mul_comm 10 ((m / 10) mod p)), N.div_add by lia. rewrite (N.div_small (m mod 10) 10) by assumption. apply N.add_0_l. }
+    assert (H2 : ((m mod (10 * p)) mod 10 = m mod 10)%N).
+    { rewrite Hmm. rewrite (N.mul_comm 10 ((m / 10) mod p)), N.mod_add by lia. apply N.mod_small. assumption. }
+    assert (H3 : (m / (10 * p) = m / 10 / p)%N) by (rewrite N.div_div by lia; reflexivity).
+    rewrite H1, H2, H3. reflexivity.
+Qed.
+
+Lemma dec_lsb_fixed : forall w n acc, (n < 10 ^ N.of_nat w)%N -> dec_lsb w n acc = fixed_dec w n ++ acc.
+Proof.
+  induction w as [|w IH]; intros n acc Hn; [reflexivity|].
+  cbn [dec_lsb]. unfold N.div_eucl at 1.
+  pose proof (N.div_eucl_spec n 10) as Hspec.
+  change (match n with 0%N => (0%N, 0%N) | N.pos na => N.pos_div_eucl na 10 end) with (N.div_eucl n 10).
+  destruct (N.div_eucl n 10) as [q r] eqn:Hqr.
+  assert (Hq : q = (n / 10)%N) by (unfold N.div; rewrite Hqr; reflexivity).
+  assert (Hrm : r = (n mod 10)%N) by (unfold N.modulo; rewrite Hqr; reflexivity).
+  subst q r.
+  rewrite IH.
+  - rewrite fixed_dec_snoc by assumption. rewrite <- app_assoc. reflexivity.
+  - rewrite pow10_succ in Hn. apply N.div_lt_upper_bound; lia.
+Qed.
+
 (* ------------------------------------------------------------------ *)
 (* %0<w>d and the id format                                            *)
 
@@ -172,7 +214,8 @@ Proof.
   assert (Hlt : (Z.to_N z < 10 ^ N.of_nat w)%N).
   { apply N2Z.inj_lt. rewrite Z2N.id by assumption. rewrite N2Z.inj_pow.
     rewrite nat_N_Z. assumption. }
-  destruct (N.ltb_spec (Z.to_N z) (10 ^ N.of_nat w)) as [_|Hge]; [reflexivity|lia].
+  destruct (N.ltb_spec (Z.to_N z) (10 ^ N.of_nat w)) as [_|Hge]; [|lia].
+  rewrite dec_lsb_fixed by assumption. apply app_nil_r.
 Qed.
 
 Lemma to_N_lt_pow : forall (w : nat) z, (0 <= z < 10 ^ Z.of_nat w)%Z -> (Z.to_N z < 10 ^ N.of_nat w)%N.
